@@ -43,7 +43,7 @@ type Result struct {
 	StateKeys  []string         // extra distinct-state keys (e.g. crash image layouts)
 	Evals      int64            // oracle evaluations in this run (images judged, queries checked)
 	SimTimeMs  int64
-	Sample     any // small JSON-able description of the case
+	Sample     any    // small JSON-able description of the case
 	Trace      string // canonical event trace (only kept when -sim.trace is set)
 }
 
@@ -90,23 +90,23 @@ type ReplayFile struct {
 
 // WorkerOut is what one worker process writes.
 type WorkerOut struct {
-	Engine     string           `json:"engine"`
-	Property   string           `json:"property"`
-	Tier       string           `json:"tier"`
-	BaseSeed   uint64           `json:"base_seed"`
-	From       int              `json:"from"`
-	To         int              `json:"to"`
-	Runs       int              `json:"runs"`
-	Truncated  bool             `json:"truncated"`
-	Evals      int64            `json:"evals"`
-	NonTrivial int              `json:"nontrivial_runs"`
-	Keys       []string         `json:"keys"`       // distinct non-trivial keys (hashed)
-	StateKeys  []string         `json:"state_keys"` // distinct state keys (hashed)
-	Counters   map[string]int64 `json:"counters"`
-	SimTimeMs  int64            `json:"sim_time_ms"`
-	Samples    []any            `json:"samples"`
-	Violations []FoundViolation `json:"violations"`
-	WallS      float64          `json:"wall_s"`
+	Engine     string            `json:"engine"`
+	Property   string            `json:"property"`
+	Tier       string            `json:"tier"`
+	BaseSeed   uint64            `json:"base_seed"`
+	From       int               `json:"from"`
+	To         int               `json:"to"`
+	Runs       int               `json:"runs"`
+	Truncated  bool              `json:"truncated"`
+	Evals      int64             `json:"evals"`
+	NonTrivial int               `json:"nontrivial_runs"`
+	Keys       []string          `json:"keys"`       // distinct non-trivial keys (hashed)
+	StateKeys  []string          `json:"state_keys"` // distinct state keys (hashed)
+	Counters   map[string]int64  `json:"counters"`
+	SimTimeMs  int64             `json:"sim_time_ms"`
+	Samples    []any             `json:"samples"`
+	Violations []FoundViolation  `json:"violations"`
+	WallS      float64           `json:"wall_s"`
 	Traces     map[string]string `json:"traces,omitempty"`
 }
 
@@ -145,6 +145,16 @@ func RunSeed(base uint64, engine, prop string, i int) uint64 {
 func inBubble(t *testing.T, f func(t *testing.T) *Result) (res *Result, harnessErr string) {
 	defer func() {
 		if r := recover(); r != nil {
+			// A panic of the system under test that the engine recovered and reported (oracle "panic") can leave
+			// goroutines of the system blocked for good; the bubble then ends with synctest's deadlock panic. The
+			// reported violation is the result of the run, not a harness failure.
+			if res != nil && strings.Contains(fmt.Sprint(r), "main bubble goroutine has exited but blocked goroutines remain") {
+				for _, v := range res.Violations {
+					if v.Oracle == "panic" {
+						return
+					}
+				}
+			}
 			harnessErr = fmt.Sprintf("bubble panic: %v\n%s", r, debug.Stack())
 		}
 	}()
